@@ -84,6 +84,7 @@ func mutExec(h sim.History) []string {
 			req := fmt.Sprintf("mut %s %s %s %s %s %s", tok[1], tok[2], oracleTokens(meta, mutator.LabelRandomizeScheduledAtMin),
 				oracleTokens(meta, mutator.LabelRandomizeScheduledAtMax), strings.Join(tok[3:9], " "), tok[9])
 			loadRes, res := "ok", "-"
+			again2 := ""
 			func() {
 				defer func() {
 					if r := recover(); r != nil {
@@ -103,10 +104,24 @@ func mutExec(h sim.History) []string {
 					}()
 					q := ms.Apply(p)
 					res = "ok " + proto.Param(q) + " " + strconv.Itoa(rd.n)
+					// the SAME loaded mutators applied again (the cron store keeps them for every later occurrence of
+					// an entry): same parameter, same clock, same random bytes — they must give the same result
+					for k := 0; k < 2; k++ {
+						rd2 := &countingReader{r: bytes.NewReader(raw)}
+						mutator.VerifSetRandomReader(rd2)
+						q2 := ms.Apply(p)
+						if again := "ok " + proto.Param(q2) + " " + strconv.Itoa(rd2.n); again != res {
+							again2 = "mismatch C18 the same loaded mutators applied again to the same parameter (same clock, same random bytes) give " +
+								proto.Str(again) + " after " + proto.Str(res) + " the first time (mutators must not carry state from one application to the next)"
+						}
+					}
 				}()
 			}()
 			mutator.VerifSetRandomReader(prevRd)
 			out = append(out, req+" -> "+loadRes+" "+res)
+			if again2 != "" {
+				out = append(out, again2)
+			}
 		case "padd":
 			p, err2 := proto.UnParam(tok[2:8])
 			raw, err3 := unhex(tok[8])
